@@ -267,6 +267,18 @@ RecvFilterHashes(p, m) ==
               /\ out'.ban = IF r.res = "ban" THEN {p} ELSE {}
        ELSE same
 
+\* Peers::update_min_filtered_block_number: the cached hashes belong to the check point interval the filter
+\* sync is in; they are dropped when it moves to another interval
+Recache(c, m) == IF c[1] # m \div Interval THEN <<m \div Interval, <<>> >> ELSE c
+
+\* could_request_more_block_filters(final index, m), on the state after the step
+CouldRequestMore(m) ==
+    LET should == m \div Interval
+        finalIdx == Len(cpFinal') - 1
+    IN IF should >= finalIdx
+       THEN \E lq \in LatestQuorums : finalIdx * Interval + Len(lq) >= m + 1
+       ELSE cached'[1] = should /\ Len(cached'[2]) = Interval
+
 \* chained hash: filter data of block f on top of parent hash `par` gives fid f iff par is fid of f's parent
 ChainHash(par, f) == IF f # 0 /\ Par(world, f) = par THEN f ELSE -1
 
@@ -597,10 +609,10 @@ HistOnCanon ==
 MatchedAtRightHeight ==
     \A i \in 1..Len(mdb) : \A j \in 1..Len(mdb[i][3]) :
         LET b == mdb[i][3][j][1] IN
-        \/ "KF-C06-blockhash" \in cfg.allow /\ b \in subst /\ b > 0
+        \/ "KF-C06-blockhash" \in cfg.allow /\ b \in subst /\ b >= -1
         \* KF-C04-spanning-record: the record was pending when the chain forked inside its range and was kept; its
-        \* blocks of the abandoned branch are remembered (negated) in the history variable subst
-        \/ /\ "KF-C04-spanning-record" \in cfg.allow /\ (0 - b) \in subst
+        \* blocks of the abandoned branch are remembered (as -(b + 1)) in the history variable subst
+        \/ /\ "KF-C04-spanning-record" \in cfg.allow /\ b >= 1 /\ (0 - b - 1) \in subst
            /\ (TLCGet(44) = 0 => TLCSet(44, 1) /\ PrintT(<<"KNOWN-FINDING", "KF-C04-spanning-record", mdb[i], b>>))
         \/ /\ b >= 1
            /\ mdb[i][1] <= Num(world, b) /\ Num(world, b) < mdb[i][1] + mdb[i][2]
@@ -652,13 +664,13 @@ FetchedTruthful ==
 IndexInv == CellsSound /\ HistOnCanon /\ ScriptsNumberHonest
 
 \* once a substituted block hash was accepted (KF-C06-blockhash) the rest of the scenario cannot be complete
-Tainted == \/ "KF-C06-blockhash" \in cfg.allow /\ \E x \in subst : x > 0
-           \/ "KF-C04-spanning-record" \in cfg.allow /\ \E x \in subst : x < 0
+Tainted == \/ "KF-C06-blockhash" \in cfg.allow /\ \E x \in subst : x >= -1
+           \/ "KF-C04-spanning-record" \in cfg.allow /\ \E x \in subst : x <= -2
 
 \* the blocks of the abandoned branch that stay in kept matched-block records when the tip changes branch
 SpanKept ==
     IF tip' = tip THEN {}
-    ELSE {0 - b : b \in {x \in UNION {{mdb'[i][3][j][1] : j \in 1..Len(mdb'[i][3])} : i \in 1..Len(mdb')} :
+    ELSE {0 - b - 1 : b \in {x \in UNION {{mdb'[i][3][j][1] : j \in 1..Len(mdb'[i][3])} : i \in 1..Len(mdb')} :
                             x >= 1 /\ ~IsAnc(world, x, tip')}}
 
 Quiet == mdb = <<>> /\ mmem = {} /\ minF = Num(world, tip) /\ \A e \in scripts : e[2] = minF
